@@ -73,3 +73,75 @@ impl<H: ElementHasher> ElementHasher for RecHasher<H> {
         d
     }
 }
+
+// ---------------------------------------------------------------------------------------------------------
+// recording coin
+// ---------------------------------------------------------------------------------------------------------
+use winter_crypto::{DefaultRandomCoin, RandomCoin, RandomCoinError};
+use winter_math::StarkField;
+
+#[derive(Clone, Debug)]
+pub struct CCall {
+    pub op: &'static str, // new | reseed | draw | ints | clz
+    pub data: Vec<u8>,    // seed elements (canonical bytes) | digest (32) | drawn element bytes | nonce (8 LE)
+    pub ints: Vec<u64>,   // draw_integers: results; ints[..] ; for "ints" also [num, domain] appended in `args`
+    pub args: Vec<u64>,
+}
+impl CCall {
+    pub fn to_json(&self) -> Value {
+        json!({"op": self.op, "data": self.data, "ints": self.ints, "args": self.args})
+    }
+}
+thread_local! {
+    pub static CLOG: RefCell<Vec<CCall>> = RefCell::new(Vec::new());
+}
+pub fn clog_take() -> Vec<CCall> {
+    CLOG.with(|l| std::mem::take(&mut *l.borrow_mut()))
+}
+fn cpush(c: CCall) {
+    CLOG.with(|l| l.borrow_mut().push(c));
+}
+
+/// A RandomCoin that delegates to DefaultRandomCoin<H> and records every operation of prover and verifier.
+pub struct RecCoin<H: ElementHasher>(DefaultRandomCoin<H>);
+
+impl<B: StarkField, H: ElementHasher<BaseField = B>> RandomCoin for RecCoin<H> {
+    type BaseField = B;
+    type Hasher = H;
+
+    fn new(seed: &[B]) -> Self {
+        let mut bytes = Vec::new();
+        for e in seed {
+            e.write_into(&mut bytes);
+        }
+        cpush(CCall { op: "new", data: bytes, ints: vec![], args: vec![seed.len() as u64] });
+        RecCoin(DefaultRandomCoin::new(seed))
+    }
+    fn reseed(&mut self, data: H::Digest) {
+        cpush(CCall { op: "reseed", data: data.as_bytes().to_vec(), ints: vec![], args: vec![] });
+        self.0.reseed(data)
+    }
+    fn check_leading_zeros(&self, value: u64) -> u32 {
+        let r = self.0.check_leading_zeros(value);
+        cpush(CCall { op: "clz", data: value.to_le_bytes().to_vec(), ints: vec![r as u64], args: vec![] });
+        r
+    }
+    fn draw<E: FieldElement<BaseField = B>>(&mut self) -> Result<E, RandomCoinError> {
+        let r = self.0.draw::<E>();
+        let bytes = match &r {
+            Ok(e) => e.to_bytes(),
+            Err(_) => vec![],
+        };
+        cpush(CCall { op: "draw", data: bytes, ints: vec![], args: vec![E::EXTENSION_DEGREE as u64] });
+        r
+    }
+    fn draw_integers(&mut self, num_values: usize, domain_size: usize, nonce: u64) -> Result<Vec<usize>, RandomCoinError> {
+        let r = self.0.draw_integers(num_values, domain_size, nonce);
+        let ints = match &r {
+            Ok(v) => v.iter().map(|x| *x as u64).collect(),
+            Err(_) => vec![],
+        };
+        cpush(CCall { op: "ints", data: nonce.to_le_bytes().to_vec(), ints, args: vec![num_values as u64, domain_size as u64] });
+        r
+    }
+}
